@@ -15,7 +15,8 @@ CHECKS = {
          'with symbolic weights and a symbolic output cotangent; per weight entry the solver decides equality with sum_j c_j dZ_j/dw from forward-mode (dual number) differentiation of the definitional sum-product. Right level: an identity between two '
          'rational functions of all weights; gradcheck samples one point.',
     note='Bounds: non-recursive grammars of the C01 families with <=10 weights (shared factors, unreachable factors, duplicate externals, edgeless nodes), Real and Log, three method names. Regimes: positive weights, Real also one zero weight. '
-         'Not decided: gradients through recursive SCCs (the implicit-function clause of the statement) -- the recursive Jacobian systems with symbolic fixed points exceeded the solver budget; they are exercised only by running the repository\'s own gradcheck tests on the model.',
+         'Recursive SCCs: SumProduct.backward is driven directly on a symbolic fixed point z = G(z,w) (assumed together with spectral radius < 1) for SCCs of one or two scalar nonterminals (linear, quadratic, mutual, non-linear mutual) and decided against the implicit-function identity '
+         '(dG/dw)^T lambda with lambda = (dG/dz)^T lambda + c; larger recursive systems and Log-semiring recursion are outside the claim.',
     technique='SMT equivalence with forward-mode derivatives of the definitional sum-product (z3 NRA)', design='5/C03'),
  'C04': dict(
     text='viterbi() is executed on the z3-valued tensor model with symbolic log-weights; arg-max back-pointers are symbolic integers, so every feasible optimum/tie becomes its own path. Per path the derivation is checked for well-formedness and the '
